@@ -82,6 +82,9 @@ def searchItem (z : ZTable) (cm : SearchCfgM) (cs : Spec.SearchCfg) (noSpec : Bo
         match (Spec.legalMoves r.g.current).find? (fun sm => Spec.moveName sm == uci) with
         | none => ({ r with w := w' }, "ok", "spec-illegal")
         | some sm => ({ r with w := w', g := { r.g with moves := r.g.moves ++ [sm] } }, "ok", "ok")
+  else if item == "fork" then
+    -- the script goes on on `Board.Fork()` of the board (what the engine hands its searches): the same game
+    (r, "forked", "forked")
   else if item == "pop" then
     match r.w.popMove 0 with
     | none => (r, "none", "none")
